@@ -224,6 +224,15 @@ def judge_one(wf, name, clock, state):
                 vs.append(("C14.queries", "queries-not-converse",
                            {"t": tid[n], "p": tid[m]}))
                 break
+            # these are REPEATED queries about the same tasks (each was
+            # asked once above): they must still agree with the graph
+            want = m in preds[n]
+            if p_in != want or s_in != want:
+                vs.append(("C14.queries", "repeated-query-differs-from-graph",
+                           {"t": tid[n], "p": tid[m], "edge": want,
+                            "predecessor_query": p_in,
+                            "successor_query": s_in}))
+                break
     # dedupe by (clause, cause)
     seen, out = set(), []
     for v in vs:
